@@ -184,6 +184,22 @@ def work(args):
         desc["SUIT_Envelope_Tagged"].setdefault("suit-integrated-payloads", {})["#" + name] = name
         desc["SUIT_Envelope_Tagged"]["suit-manifest"]["suit-validate"] = [{"suit-directive-override-parameters": {
             "suit-parameter-image-digest": {"suit-digest-algorithm-id": alg, "suit-digest-bytes": {"file": name}}, "suit-parameter-image-size": {"file": name}}}]
+    if kind == "paddedchild":
+        # a dependency envelope file that is valid but not what this tool would write byte for byte (padding after the CBOR item, as in a flash dump or
+        # a file from another encoder): size and content by path describe the *file*
+        import random
+        rng = random.Random(f"{seed}:{index}:padded")
+        child = {"SUIT_Envelope_Tagged": {"suit-authentication-wrapper": {"SuitDigest": {"suit-digest-algorithm-id": "cose-alg-sha-256"}},
+                                          "suit-manifest": {"suit-manifest-version": 1, "suit-manifest-sequence-number": index % 50,
+                                                            "suit-common": {"suit-components": [["M", 1]]}}}}
+        cb = suitcases.run_impl_create(child, {})
+        if "ok" not in cb:
+            return None
+        pad = rng.choice([b"\xff", b"\xff" * 3, b"\xff" * 64, b"\x00" * 2])
+        files["child_padded.suit"] = bytes.fromhex(cb["ok"]) + pad
+        desc["SUIT_Envelope_Tagged"]["suit-manifest"]["suit-validate"] = [{"suit-directive-override-parameters": {
+            "suit-parameter-image-size": {"envelope": "child_padded.suit"}}}]
+        desc["SUIT_Envelope_Tagged"].setdefault("suit-integrated-dependencies", {})["#child_padded.suit"] = "child_padded.suit"
     if kind == "symlink":
         # a referenced path is resolved the way the operating system resolves it: ".." after a directory that is a symbolic link leads to the parent of the
         # link's target, not to the parent of the link's name; at the lexically shortened place lies another file
@@ -252,6 +268,7 @@ def run(tier: str, seed: int) -> int:
     jobs += [(seed, 7 * 10 ** 6 + i, "big") for i in range(6 if tier == "quick" else 60)]
     jobs += [(seed, 12 * 10 ** 6 + i, "suffix") for i in range(24 if tier == "quick" else 300)]
     jobs += [(seed, 13 * 10 ** 6 + i, "symlink") for i in range(8 if tier == "quick" else 80)]
+    jobs += [(seed, 14 * 10 ** 6 + i, "paddedchild") for i in range(8 if tier == "quick" else 80)]
     known = {e["id"] for e in Findings().known(PROP)}
     outs = common.pmap(work, jobs, chunk=8)
     for job, o in zip(jobs, outs):
